@@ -16,12 +16,14 @@ the statement of C13 is evaluated on every real run; on any failure a concrete f
 import os, shutil, tempfile, copy
 import common, translate, gencheck
 
-PROOFS = {"search_mpc": "SearchMpcSpec.v", "search_mpcc": "SearchMpccSpec.v", "search_mgs": "SearchMgsSpec.v", "search_npo": "SearchNpoSpec.v"}
+PROOFS = {"search_mpc": "SearchMpcSpec.v", "search_mpcc": "SearchMpccSpec.v", "search_mgs": "SearchMgsSpec.v", "search_npo": "SearchNpoSpec.v", "search_mfdc_main": "SearchMfdcSpec.v", "search_mfd_main": "SearchMfdSpec.v"}
 COMMON = "SearchSpec.v"
-CLASS = {"search_mpc": "MinPathCover", "search_mpcc": "MinPathCoverCycles", "search_mgs": "MinGenSet", "search_npo": "NumPathsOptimization"}
-STREAM = {"search_mpc": "mpc", "search_mpcc": "mpcc", "search_mgs": "mgs", "search_npo": "npo"}
+CLASS = {"search_mpc": "MinPathCover", "search_mpcc": "MinPathCoverCycles", "search_mgs": "MinGenSet", "search_npo": "NumPathsOptimization", "search_mfdc_main": "MinFlowDecompCycles", "search_mfd_main": "MinFlowDecomp"}
+STREAM = {"search_mpc": "mpc", "search_mpcc": "mpcc", "search_mgs": "mgs", "search_npo": "npo", "search_mfdc_main": "mfdc", "search_mfd_main": "mfd"}
 STATEMENT_NPO = ("NumPathsOptimization.solve(): whatever the solver reports, when it returns True the model it hands out is that of a k of the range which its constructor "
                  "had already solved or whose own solver run -- the last invocation made -- was reported optimal; is_solved() says what solve() returned")
+STATEMENT_MFDC = ("MinFlowDecompCycles.solve(), main loop: whatever the solver reports, an inconclusive status of a model of the main loop ends the search with False; True is "
+                  "returned only with a solved model; the time limit ends the search with False; is_solved() and the getters say what solve() returned (engines/c13.py property_failures)")
 STATEMENT = ("%s.solve(): whatever the solver reports, it returns True exactly when the model for some k of the range was reported optimal after every "
              "smaller k of the range (from the lower bound on; MinGenSet: from max(1, lowerbound)) had been reported infeasible, and then k is the size of the answer; an "
              "inconclusive status (time limit, custom time-out, interrupt, unknown, ...) ends the search at once with False; False otherwise only "
@@ -35,12 +37,25 @@ def c13():
 
 
 # ------------------------------------------------------------------------------------------ instances
-def make_spec(E, fp, name, rng):
+def make_spec(E, fp, name, rng, tap=None, i=0):
     import gen
     if name == "search_mpc":
         return E.spec_mpc(fp, [[u, v, 1] for u, v in gen.rand_dag(rng, 6).edges()], False)
     if name == "search_mpcc":
         return E.spec_mpc(fp, [[u, v, 1] for u, v, _ in E.flow_cyclic(rng)], True)
+    if name in ("search_mfdc_main", "search_mfd_main") and tap is not None and i % 3 == 2:
+        # instances whose guessed-weights answer has more routes than the minimum (the engine's gw_gap_instance), guessed weights on
+        cyc = name == "search_mfdc_main"
+        edges = E.gw_gap_instance(fp, tap, rng, cyc)
+        if edges is not None:
+            opts = {"optimize_with_guessed_weights": True} if cyc or i % 2 else {"optimize_with_guessed_weights": True, "optimize_with_greedy": False}
+            sp = E.spec_mfdc(fp, edges, opts, timed=True) if cyc else E.spec_mfd(fp, edges, opts)
+            sp.exhaust = False
+            return sp
+    if name == "search_mfdc_main":
+        return E.spec_mfdc(fp, E.flow_cyclic(rng), rng.choice(E.MFDC_OPTS), timed=True)
+    if name == "search_mfd_main":
+        return E.spec_mfd(fp, E.flow_dag(rng), rng.choice(E.MFD_OPTS))
     if name == "search_npo":
         while True:
             edges = E.flow_dag(rng)
@@ -69,10 +84,33 @@ def npo_params(obs):
     return P
 
 
+def mfdc_params(spec, obs):
+    """what the auxiliary phases left behind in this run (read from the object and from the tags of the invocation log) and the clock oracle"""
+    m = obs["m"]; log = obs["log"]
+    guessed = bool(spec.opts.get("optimize_with_guessed_weights", type(m).optimize_with_given_weights))
+    n_mgs = sum(1 for e in log if e["tag"] == "mgs"); n_gw = sum(1 for e in log if e["tag"] == "gw")
+    gwm = getattr(m, "_given_weights_model", None); gw_set = gwm is not None and bool(gwm.is_solved())
+    oa = obs.get("over_after")
+    return {"guessed": guessed, "aux_gw": (n_mgs + n_gw) if guessed else 0, "aux_lb": 0 if guessed else n_mgs, "lb": int(obs["lbk"]), "ne": int(m.G.number_of_edges()),
+            "gw_set": gw_set, "gw_paths": E_count(spec, gwm) if gw_set else 0,
+            "ov": [oa is not None and n >= oa for n in range(obs["used"] + 2)], "gr": greedy_of(obs) if spec.cls == "MinFlowDecomp" else None}
+
+
+def E_count(spec, gwm):
+    sol = gwm.get_solution(remove_empty_paths=True) if spec.cls == "MinFlowDecomp" else gwm.get_solution(remove_empty_walks=True)
+    return len(sol["paths"] if spec.cls == "MinFlowDecomp" else sol["walks"])
+
+
+def greedy_of(obs):
+    """for which k kFlowDecomp(k) is solved by its constructor: the list the engine computes for its own request (mfd: 10 head tokens, then the list)"""
+    t = obs["req"].split()[1:]; n = int(t[10])
+    return [bool(int(x)) for x in t[11:11 + n]]
+
+
 def params(name, spec):
     """the parameters of the loop as the implementation computes them (no solver call)"""
-    if name == "search_npo":
-        return None          # run-dependent: npo_params(obs)
+    if name in ("search_npo", "search_mfdc_main", "search_mfd_main"):
+        return None          # run-dependent: npo_params(obs) / mfdc_params(spec, obs)
     m = spec.build()
     if name == "search_mgs":
         return {"lb": int(m.lowerbound), "n": len(m.initial_numbers), "cuts": sum(len(c) - 1 for c in (m.partition_constraints or []))}
@@ -93,6 +131,8 @@ def statuses(obs):
 def violated(name, P, obs):
     """clauses of the statement broken by one real run (empty list = the statement holds)"""
     E = c13(); bad = []; sts = statuses(obs); out = obs["outcome"]
+    if name in ("search_mfdc_main", "search_mfd_main"):
+        return [f[0] for f in E.property_failures(P["spec"], obs, P.get("nat"))]
     if name == "search_npo":
         P = npo_params(obs)
         if out not in ("S", "N", "C"): return ["solve() ended with " + out]
@@ -126,9 +166,24 @@ def violated(name, P, obs):
     return bad
 
 
+def second_call_bad(E, tap, spec, obs, nat):
+    """solve() once more on the SAME object after a run that an inconclusive status ended unsolved: the failed run must leave no trace"""
+    if spec.cls not in ("MinFlowDecomp", "MinFlowDecompCycles") or obs is nat or obs["outcome"] != "N" or obs.get("over_after") is not None: return []
+    if not any(not E.conclusive(s) for s in statuses(obs)) or any(v == "kInfeasible" for v in obs["inject"].values()): return []
+    o2 = E.observe(tap, spec, {}, None, again=obs)
+    if nat["outcome"] == "S" and o2["outcome"] == "S" and o2["k"] is not None and nat["k"] is not None and o2["k"] < nat["k"]: return []
+    if (o2["outcome"], o2["k"]) != (nat["outcome"], nat["k"]):
+        return ["a second solve() on the same object after the inconclusive run gave %s k=%s, the natural answer is %s k=%s" % (o2["outcome"], o2["k"], nat["outcome"], nat["k"])]
+    return []
+
+
 def plans_of(E, nat, spec):
     if spec.cls == "NumPathsOptimization":
         return E.injection_plans(nat["log"], spec, 0, True)
+    if spec.cls == "MinFlowDecompCycles":
+        return E.injection_plans(nat["log"], spec, 1, True)
+    if spec.cls == "MinFlowDecomp":
+        return E.injection_plans(nat["log"], spec, 2, False)
     return [(inj, None) for inj, oa in E.injection_plans(nat["log"], spec, 2 if spec.cls != "MinGenSet" else 0, False)]
 
 
@@ -139,6 +194,11 @@ def header(name):
 
 def coq_call(name, P, sts):
     codes = "[" + "; ".join("(%d)%%Z" % CODE.get(s, 3) for s in sts) + "]"
+    if name in ("search_mfdc_main", "search_mfd_main"):
+        bl = lambda l: "[" + "; ".join("true" if x else "false" for x in l) + "]"; b = lambda x: "true" if x else "false"
+        args = "%s %s (%d)%%Z (%d)%%Z (%d)%%Z (%d)%%Z %s (%d)%%Z" % (bl(P["ov"] if name == "search_mfdc_main" else P["gr"]), b(P["guessed"]), P["aux_gw"], P["aux_lb"], P["lb"], P["ne"], b(P["gw_set"]), P["gw_paths"])
+        return ("(let r := fn %s 0%%Z 7%%Z %s in [match fst (fst (fst (fst r))) with Ret true => 1 | Ret false => 0 | Exc _ => 2 | RetNone => 3 end; "
+                "snd (fst (fst (fst r))); snd (fst (fst r)); (if snd (fst r) then 1 else 0); snd r])%%Z" % (codes, args))
     if name == "search_npo":
         from fractions import Fraction
         bl = lambda l: "[" + "; ".join("true" if x else "false" for x in l) + "]"
@@ -161,7 +221,8 @@ def differs(row, obs):
     k_real = obs["k"] if not hasattr(obs["m"], "model_type") else getattr(getattr(obs["m"], "model", None), "k", None)
     if res != want: d.append(("solve() returned", obs["outcome"], {1: "True", 0: "False", 2: "exception"}.get(res, res)))
     if n != len(sts): d.append(("invocations", len(sts), n))
-    if sts and last != CODE.get(sts[-1], 3): d.append(("last status", sts[-1], last))
+    if sts and last != CODE.get(sts[-1], 3) and not hasattr(obs["m"], "_given_weights_model"):      # (the auxiliary phases of MinFlowDecompCycles are not in the model)
+        d.append(("last status", sts[-1], last))
     if (flag == 1) != (obs["post"]["is_solved"] == "T"): d.append(("is_solved()", obs["post"]["is_solved"], flag))
     if obs["outcome"] == "S" and res == 1 and ch != k_real: d.append(("size of the answer", k_real, ch))
     return d
@@ -207,7 +268,7 @@ def run_generated_c13(ctx, names=None):
 
 
 def record(name, spec, obs, bad, problems):
-    return {"generated_model": name, "class": spec.cls, "input": spec.inp, "inject": {str(k): v for k, v in obs["inject"].items()},
+    return {"generated_model": name, "class": spec.cls, "input": spec.inp, "options": spec.opts, "inject": {str(k): v for k, v in obs["inject"].items()},
             "over_after": obs.get("over_after"), "statuses": statuses(obs), "observed": {"solve": obs["outcome"], "k": obs["k"], "invocations": obs["used"], "is_solved": obs["post"]["is_solved"]},
             "violated_clauses": bad, "broken": problems}
 
@@ -220,19 +281,27 @@ def one(ctx, E, fp, tap, name, build, common_ok, common_log):
     else:
         model_ok, problems = False, ["coq/gen_proofs/%s does not compile: %s" % (COMMON, common_log[:300])]
     runs = []; concrete = None
-    for i in range(ctx.budget(16, 160) if name == "search_npo" else ctx.budget(6, 60)):
+    for i in range(ctx.budget(16, 160) if name == "search_npo" else ctx.budget(5, 50) if name in ("search_mfdc_main", "search_mfd_main") else ctx.budget(6, 60)):
         rng = ctx.rng(STREAM[name], i)
         E.set_route(i % 2 == 1)
-        spec = make_spec(E, fp, name, rng); spec.inp = dict(spec.inp, alarm_route=E.alarm_route())
+        spec = make_spec(E, fp, name, rng, tap, i); spec.inp = dict(spec.inp, alarm_route=E.alarm_route())
         P = params(name, spec)
         nat = E.observe(tap, spec, {})
         for obs in [nat] + [E.observe(tap, spec, inj, oa) for inj, oa in plans_of(E, nat, spec)]:
-            runs.append((spec, P if P is not None else npo_params(obs), obs))
+            if name in ("search_mfdc_main", "search_mfd_main"):
+                if obs["outcome"] not in ("S", "N") or obs["lbk"] in (None, "solver-called"):
+                    Pm = {"spec": spec, "nat": nat if obs is not nat else None}
+                else:
+                    Pm = dict(mfdc_params(spec, obs), spec=spec, nat=nat if obs is not nat else None)
+                runs.append((spec, Pm, obs))
+            else:
+                runs.append((spec, P if P is not None else npo_params(obs), obs))
             ctx.count("generated_model", "property_evaluations")
             ctx.case(["generated", name, spec.inp, sorted(obs["inject"].items(), key=str)], nontrivial=any(p < obs["used"] for p in obs["inject"]))
-            bad = violated(name, P, obs)
+            bad = violated(name, runs[-1][1], obs) + second_call_bad(E, tap, spec, obs, nat)
             if bad and concrete is None: concrete = (spec, obs, bad)
     if model_ok:
+        runs = [t for t in runs if "lb" in t[1] or name not in ("search_mfdc_main", "search_mfd_main")]       # runs that ended in an exception have no parameters to compare with
         res, secs = gencheck.vm_eval(build, name, header(name), [coq_call(name, P, statuses(o)) for _, P, o in runs], depth=2)
         ctx.count("generated_model", "coqc_s", secs)
         if isinstance(res, str):
@@ -249,19 +318,20 @@ def one(ctx, E, fp, tap, name, build, common_ok, common_log):
         for i in range(ctx.budget(40, 400)):
             rng = ctx.rng("gen13-search-" + name, i)
             E.set_route(i % 2 == 1)
-            spec = make_spec(E, fp, name, rng); spec.inp = dict(spec.inp, alarm_route=E.alarm_route())
+            spec = make_spec(E, fp, name, rng, tap, i); spec.inp = dict(spec.inp, alarm_route=E.alarm_route())
             P = params(name, spec)
             nat = E.observe(tap, spec, {})
             for obs in [nat] + [E.observe(tap, spec, inj, oa) for inj, oa in plans_of(E, nat, spec)]:
                 ctx.count("generated_model", "search_evaluations")
-                bad = violated(name, P, obs)
+                bad = violated(name, {"spec": spec, "nat": nat if obs is not nat else None} if name in ("search_mfdc_main", "search_mfd_main") else P, obs)
+                bad = bad + second_call_bad(E, tap, spec, obs, nat)
                 if bad: concrete = (spec, obs, bad); break
             if concrete is not None: break
     if concrete is not None:
         spec, obs, bad = concrete
         rep.update(record(name, spec, obs, bad, problems))
         ctx.report("%s — violated by the implementation on %s with injected statuses %s: %s%s" % (
-            (STATEMENT_NPO if name == "search_npo" else STATEMENT % CLASS[name]), str(spec.inp)[:200], rep["inject"], bad[0][:300], (" [" + problems[0][:160] + "]") if problems else ""), rep, concrete=True)
+            (STATEMENT_NPO if name == "search_npo" else STATEMENT_MFDC.replace("Cycles", "") if name == "search_mfd_main" else STATEMENT_MFDC if name == "search_mfdc_main" else STATEMENT % CLASS[name]), str(spec.inp)[:200], rep["inject"], bad[0][:300], (" [" + problems[0][:160] + "]") if problems else ""), rep, concrete=True)
     elif problems:
         rep.update({"broken": problems})
         ctx.report("generated-model tie of %s no longer checks (%s); the statement held on every run tried" % (name, problems[0][:300]), rep, concrete=False)
@@ -276,10 +346,12 @@ def replay(ctx, body):
     tap = E.Tap()
     try:
         inp = dict(body["input"]); E.set_route(bool(inp.pop("alarm_route", False)))
-        spec = E.rebuild_spec(fp, body["class"], inp, {})
-        P = params(name, spec)
+        spec = E.rebuild_spec(fp, body["class"], inp, body.get("options") or {})
+        P = params(name, spec) if name not in ("search_mfdc_main", "search_mfd_main") else {"spec": spec, "nat": None}
+        nat = E.observe(tap, spec, {})
+        if isinstance(P, dict) and "nat" in P: P["nat"] = nat
         obs = E.observe(tap, spec, {int(k): v for k, v in body["inject"].items()}, body.get("over_after"))
-        bad = violated(name, P, obs)
+        bad = violated(name, P, obs) + second_call_bad(E, tap, spec, obs, nat)
         print("observed now:", {"solve": obs["outcome"], "k": obs["k"], "statuses": statuses(obs)}, "| violated clauses:", bad)
         return bool(bad)
     finally:
